@@ -57,7 +57,7 @@ func hx(b []byte) string {
 
 // boundaryLen draws a length biased to varint / push-data boundaries.
 func boundaryLen(c *kernel.RunCtx, max int) int {
-	switch c.Pick(40, 12, 6, 6, 6, 3) {
+	switch c.Pick(40, 12, 6, 6, 6, 3, 3) {
 	case 0:
 		return c.Range(0, 40)
 	case 1:
@@ -68,6 +68,13 @@ func boundaryLen(c *kernel.RunCtx, max int) int {
 		return c.Range(200, 300)
 	case 4:
 		n := c.Range(0, 2000)
+		if n > max {
+			n = max
+		}
+		return n
+	case 6:
+		// the sizes buffers and pools are usually made in: 4 KiB ... 48 KiB, on and next to the powers of two
+		n := []int{4095, 4096, 4097, 8191, 8192, 8193, 16383, 16384, 16385, 20000, 32767, 32768, 32769, 49152, c.Range(2000, 65000), c.Range(2000, 65000)}[c.Choose(16)]
 		if n > max {
 			n = max
 		}
